@@ -304,12 +304,15 @@ type Outcome struct {
 	PoppedNil bool // Pop on the root: nothing to pop
 }
 
-// Enabled is the alphabet restriction: memory is only released by the context
-// that required it, and never more than it still holds.
+// Enabled is the alphabet restriction (none is left for Release: see below).
 func (s *Stack) Enabled(op Op) bool {
 	switch op.Kind {
 	case Release:
-		return new(big.Int).SetUint64(op.Amt).Cmp(s.Top().OwnMem) <= 0
+		// any amount: releasing more than the context has accounted reduces
+		// its usage "if possible" (quotas.md), i.e. to zero - memory required
+		// in an enclosing context may be released in a nested one (a coroutine
+		// created outside and finishing inside)
+		return true
 	case ParentSoft, ParentHard:
 		return len(s.C) > 1
 	}
@@ -468,7 +471,13 @@ func (s *Stack) Step(op Op) []Outcome {
 		a := new(big.Int).SetUint64(op.Amt)
 		if c.Tracked(Mem) {
 			c.Used[Mem].Sub(c.Used[Mem], a)
+			if c.Used[Mem].Sign() < 0 {
+				c.Used[Mem].SetInt64(0)
+			}
 			c.OwnMem.Sub(c.OwnMem, a)
+			if c.OwnMem.Sign() < 0 {
+				c.OwnMem.SetInt64(0)
+			}
 		}
 		return []Outcome{{Next: n}}
 
